@@ -1017,3 +1017,61 @@ Lemma det2_affine (m11 m12 m21 m22 : Z) (a b c : pt2) :
   let G (p : pt2) := (m11 * fst p + m12 * snd p, m21 * fst p + m22 * snd p) in
   det2 (sub2 (G b) (G a)) (sub2 (G c) (G a)) = (m11 * m22 - m12 * m21) * det2 (sub2 b a) (sub2 c a).
 Proof. destruct a as [a1 a2], b as [b1 b2], c as [c1 c2]. cbv [det2 sub2 fst snd]. ring. Qed.
+
+Local Close Scope Z_scope.
+Lemma nth_repeat_lt {A} (x d : A) n j : j < n -> nth j (repeat x n) d = x.
+Proof. revert j; induction n as [|n IH]; intros [|j] H; simpl; try lia; [reflexivity | apply IH; lia]. Qed.
+
+(* ------------------------------------------------------------------ m0 @ [m1, m2, ...] *)
+Lemma nth_concat_offset {A} (d : A) (ls : list (list A)) j v :
+  j < length ls -> v < length (nth j ls []) ->
+  nth (v + list_sum (firstn j (map (@length A) ls))) (concat ls) d = nth v (nth j ls []) d /\
+  v + list_sum (firstn j (map (@length A) ls)) < length (concat ls).
+Proof.
+  revert j. induction ls as [|l ls IH]; intros j Hj Hv; simpl in Hj; [lia|].
+  destruct j as [|j]; simpl.
+  - rewrite Nat.add_0_r. simpl in Hv. split; [apply app_nth1; exact Hv | rewrite app_length; lia].
+  - simpl in Hv. destruct (IH j ltac:(lia) Hv) as [H1 H2].
+    split.
+    + rewrite app_nth2 by lia. replace (v + (length l + list_sum (firstn j (map (@length A) ls))) - length l)
+        with (v + list_sum (firstn j (map (@length A) ls))) by lia. exact H1.
+    + rewrite app_length. lia.
+Qed.
+
+(* join_spec for m0 @ [m1, m2, ...]: every cell slot of every mesh of the list keeps its vertex coordinates in the
+   shared merged point table *)
+Theorem matmul_cells (ps : list (list key)) (j : nat) (t : mat nat) r c :
+  j < length ps -> r < length t -> c < length (nth r t []) -> nth c (nth r t []) 0 < length (nth j ps []) ->
+  nth (nth c (nth r (matmul_t ps j t) []) 0) (matmul_p ps) [] = nth (nth c (nth r t []) 0) (nth j ps []) [].
+Proof.
+  intros Hj Hr Hc Hv. unfold matmul_t, matmul_p, matmul_offset.
+  set (off := list_sum (firstn j (map (@length key) ps))).
+  set (ts := map (map (fun v => v + off)) t).
+  assert (Hrow : nth r ts [] = map (fun v => v + off) (nth r t [])) by (apply (map_nth_in _ t r [] []); exact Hr).
+  assert (Hent : nth c (nth r ts []) 0 = nth c (nth r t []) 0 + off)
+    by (rewrite Hrow; apply (map_nth_in (fun v => v + off) (nth r t []) c 0 0); exact Hc).
+  destruct (nth_concat_offset [] ps j _ Hj Hv) as [H1 H2]. fold off in H1, H2.
+  rewrite dedupe_cells.
+  - rewrite Hent. exact H1.
+  - unfold ts. rewrite map_length. exact Hr.
+  - rewrite Hrow, map_length. exact Hc.
+  - rewrite Hent. exact H2.
+Qed.
+
+(* ------------------------------------------------------------------ to_meshtri(style='x'): the centre nodes *)
+(* numbering the centres from |p| makes row `centre_row |p| nt nchild` point at the appended centres (also when p has
+   unused trailing points), and leaves every old vertex number pointing at its old point *)
+Theorem quad_x_centres {P} (d : P) (p centres : list P) (nt nchild j k : nat) :
+  length centres = nt -> j < nchild -> k < nt ->
+  nth (nth (k + j * nt) (centre_row (length p) nt nchild) 0) (quad_x_points p centres) d = nth k centres d /\
+  forall v, v < length p -> nth v (quad_x_points p centres) d = nth v p d.
+Proof.
+  intros Hc Hj Hk. split.
+  - unfold centre_row. rewrite (nth_concat_blocks 0 nt).
+    + rewrite nth_repeat_lt by exact Hj. rewrite seq_nth by exact Hk. unfold quad_x_points.
+      rewrite app_nth2 by lia. f_equal. lia.
+    + apply Forall_forall. intros b Hb. apply repeat_spec in Hb. subst b. apply seq_length.
+    + rewrite repeat_length. exact Hj.
+    + exact Hk.
+  - intros v Hv. unfold quad_x_points. apply app_nth1. exact Hv.
+Qed.
